@@ -1,4 +1,5 @@
 import BM.Props.C18b
+import BM.Props.C10
 import BM.Proofs.WFBuild
 import BM.Proofs.Tables2
 /-
@@ -103,6 +104,24 @@ theorem C18_default_policy_clean (T : Nat → Bytes → Bool) (ops : List Builde
           ((applyOps defaultHandler { initialized := true } ops).styleRulesFor el) dec = true) :
     ∃ tv, removeUnicode (toLowerGo dec.value) = some tv ∧ Clean tv :=
   C18_built_policy_clean T ops hpat (fun op hop => stylesCleanOnly_of_default op (hdef op hop)) el dec h
+
+/-- **the style attribute a default-built policy writes**: whatever the input value and the element, the new
+    value of the style attribute is the `"; "`-join of `property ": " value` over declarations every one of
+    which has a clean value (C10's shape with C18's content) -/
+theorem C18_sanitizeStyles_clean (T : Nat → Bytes → Bool) (ops : List BuilderOp)
+    (hpat : ∀ op ∈ ops, op.patsOK T) (hdef : ∀ op ∈ ops, defaultStylesOnly op) (val el : Bytes) :
+    ∃ decs : List Css.Decl,
+      (applyOps defaultHandler { initialized := true } ops).sanitizeStyles val el =
+        joinBytes b!"; " (decs.map fun d => d.property ++ b!": " ++ d.value) ∧
+      ∀ d ∈ decs, ∃ tv, removeUnicode (toLowerGo d.value) = some tv ∧ Clean tv := by
+  rw [C10_sanitizeStyles]
+  cases Css.parseDeclarations (styleSource val) with
+  | none => exact ⟨[], rfl, fun d hd => by simp at hd⟩
+  | some decs =>
+    refine ⟨decs.filter ((applyOps defaultHandler { initialized := true } ops).declAccepted
+      ((applyOps defaultHandler { initialized := true } ops).styleRulesFor el)), rfl, ?_⟩
+    intro d hd
+    exact C18_default_policy_clean T ops hpat hdef el d (List.mem_filter.mp hd).2
 
 /-- the premises are met by a history that does install style rules, on an element and globally -/
 example : (∀ op ∈ [BuilderOp.allowStyles [b!"color"] {} (.onElements [b!"span"]),
